@@ -1,0 +1,649 @@
+// Copyright 2017-2021 Lei Ni (nilei81@gmail.com) and other contributors.
+//
+// Licensed under the Apache License, Version 2.0 (the "License");
+// you may not use this file except in compliance with the License.
+// You may obtain a copy of the License at
+//
+//     http://www.apache.org/licenses/LICENSE-2.0
+//
+// Unless required by applicable law or agreed to in writing, software
+// distributed under the License is distributed on an "AS IS" BASIS,
+// WITHOUT WARRANTIES OR CONDITIONS OF ANY KIND, either express or implied.
+// See the License for the specific language governing permissions and
+// limitations under the License.
+
+//go:build verif
+// +build verif
+
+package dragonboat
+
+// This file is only compiled with the `verif` build tag. In that build the
+// long running worker goroutines of the engine and of the NodeHost return
+// immediately (see the `if verifEnabled` guards) and a deterministic
+// simulation harness kept outside of this repository runs the bodies of their
+// select loops one branch at a time through the VerifDriver below. Every
+// function called from here is the shipped one; only the select scaffolding
+// is replicated.
+
+import (
+	"sync"
+
+	"github.com/lni/dragonboat/v4/internal/logdb"
+	"github.com/lni/dragonboat/v4/internal/rsm"
+	"github.com/lni/dragonboat/v4/internal/transport"
+	"github.com/lni/dragonboat/v4/raftio"
+	pb "github.com/lni/dragonboat/v4/raftpb"
+	sm "github.com/lni/dragonboat/v4/statemachine"
+)
+
+const verifEnabled = true
+
+// VerifKind identifies one branch of one worker loop.
+type VerifKind int
+
+// The branches of the worker loops.
+const (
+	VStepTicker VerifKind = iota
+	VStepCCI
+	VStepWork
+	VCommitTicker
+	VCommitCCI
+	VCommitWork
+	VApplyTicker
+	VApplyCCI
+	VApplyWork
+	VPoolSave
+	VPoolRecover
+	VPoolStream
+	VPoolCCI
+	VPoolCompleted
+	VPoolTicker
+	VSSJob
+	VClosePoolReady
+	VClosePoolCompleted
+	VCloseJob
+	VMonitor
+)
+
+var verifKindNames = []string{"step.ticker", "step.cci", "step.work",
+	"commit.ticker", "commit.cci", "commit.work", "apply.ticker", "apply.cci",
+	"apply.work", "pool.save", "pool.recover", "pool.stream", "pool.cci",
+	"pool.completed", "pool.ticker", "ss.job", "closepool.ready",
+	"closepool.completed", "close.job", "monitor"}
+
+func (k VerifKind) String() string { return verifKindNames[k] }
+
+// VerifEvent is one enabled branch.
+type VerifEvent struct {
+	Kind   VerifKind
+	Worker uint64
+}
+
+// Owner returns the identity of the (virtual) goroutine the branch belongs to.
+// A simulator must not start a branch while another branch of the same owner
+// is still in flight.
+func (ev VerifEvent) Owner() string {
+	switch ev.Kind {
+	case VStepTicker, VStepCCI, VStepWork:
+		return "step" + string(rune('0'+ev.Worker))
+	case VCommitTicker, VCommitCCI, VCommitWork:
+		return "commit" + string(rune('0'+ev.Worker))
+	case VApplyTicker, VApplyCCI, VApplyWork:
+		return "apply" + string(rune('0'+ev.Worker))
+	case VPoolSave, VPoolRecover, VPoolStream, VPoolCCI, VPoolCompleted, VPoolTicker:
+		return "pool"
+	case VSSJob:
+		return "ss" + string(rune('0'+ev.Worker))
+	case VClosePoolReady, VClosePoolCompleted:
+		return "closepool"
+	case VCloseJob:
+		return "close" + string(rune('0'+ev.Worker))
+	}
+	return "monitor"
+}
+
+// IsTicker reports whether the branch is a timer branch (always enabled).
+func (ev VerifEvent) IsTicker() bool {
+	return ev.Kind == VStepTicker || ev.Kind == VCommitTicker ||
+		ev.Kind == VApplyTicker || ev.Kind == VPoolTicker
+}
+
+type verifLoop struct {
+	nodes   map[uint64]*node
+	updates []pb.Update
+	batch   []rsm.Task
+	entries []sm.Entry
+	cci     uint64
+	wg      sync.WaitGroup
+}
+
+// VerifDriver runs the worker loop bodies of one NodeHost.
+type VerifDriver struct {
+	nh        *NodeHost
+	e         *engine
+	step      []*verifLoop
+	commit    []*verifLoop
+	apply     []*verifLoop
+	tickNodes []*node
+	poolWG    sync.WaitGroup
+	ssWG      sync.WaitGroup
+	tick      uint64
+	tickIdx   uint64
+	mu        sync.Mutex
+	stopped   bool
+}
+
+var verifDrivers sync.Map
+
+// VerifNewDriver returns the driver of a NodeHost created in a verif build.
+func VerifNewDriver(nh *NodeHost) *VerifDriver {
+	e := nh.engine
+	d := &VerifDriver{nh: nh, e: e}
+	mk := func(n uint64) []*verifLoop {
+		r := make([]*verifLoop, n)
+		for i := range r {
+			r[i] = &verifLoop{
+				nodes:   make(map[uint64]*node),
+				updates: make([]pb.Update, 0),
+				batch:   make([]rsm.Task, 0, taskBatchSize),
+				entries: make([]sm.Entry, 0, taskBatchSize),
+			}
+		}
+		return r
+	}
+	d.step = mk(e.stepWorkReady.count)
+	d.commit = mk(e.commitWorkReady.count)
+	d.apply = mk(e.applyWorkReady.count)
+	verifDrivers.Store(e, d)
+	return d
+}
+
+func (d *VerifDriver) isStopped() bool {
+	d.mu.Lock()
+	defer d.mu.Unlock()
+	return d.stopped
+}
+
+// Enabled lists the branches that could be taken now, in a fixed order.
+func (d *VerifDriver) Enabled(tickers bool) []VerifEvent {
+	if d.isStopped() {
+		return nil
+	}
+	e := d.e
+	evs := make([]VerifEvent, 0, 16)
+	for i := range d.step {
+		w := uint64(i + 1)
+		if len(e.stepCCIReady.waitCh(w)) > 0 {
+			evs = append(evs, VerifEvent{VStepCCI, w})
+		}
+		if len(e.stepWorkReady.waitCh(w)) > 0 {
+			evs = append(evs, VerifEvent{VStepWork, w})
+		}
+		if tickers {
+			evs = append(evs, VerifEvent{VStepTicker, w})
+		}
+	}
+	if e.notifyCommit {
+		for i := range d.commit {
+			w := uint64(i + 1)
+			if len(e.commitCCIReady.waitCh(w)) > 0 {
+				evs = append(evs, VerifEvent{VCommitCCI, w})
+			}
+			if len(e.commitWorkReady.waitCh(w)) > 0 {
+				evs = append(evs, VerifEvent{VCommitWork, w})
+			}
+			if tickers {
+				evs = append(evs, VerifEvent{VCommitTicker, w})
+			}
+		}
+	}
+	for i := range d.apply {
+		w := uint64(i + 1)
+		if len(e.applyCCIReady.waitCh(w)) > 0 {
+			evs = append(evs, VerifEvent{VApplyCCI, w})
+		}
+		if len(e.applyWorkReady.waitCh(w)) > 0 {
+			evs = append(evs, VerifEvent{VApplyWork, w})
+		}
+		if tickers {
+			evs = append(evs, VerifEvent{VApplyTicker, w})
+		}
+	}
+	p := e.wp
+	if len(p.saveReady.waitCh(1)) > 0 {
+		evs = append(evs, VerifEvent{VPoolSave, 0})
+	}
+	if len(p.recoverReady.waitCh(1)) > 0 {
+		evs = append(evs, VerifEvent{VPoolRecover, 0})
+	}
+	if len(p.streamReady.waitCh(1)) > 0 {
+		evs = append(evs, VerifEvent{VPoolStream, 0})
+	}
+	if len(p.cciReady.waitCh(1)) > 0 {
+		evs = append(evs, VerifEvent{VPoolCCI, 0})
+	}
+	for i, w := range p.workers {
+		if len(w.completedC) > 0 {
+			evs = append(evs, VerifEvent{VPoolCompleted, uint64(i)})
+		}
+		if len(w.requestC) > 0 {
+			evs = append(evs, VerifEvent{VSSJob, uint64(i)})
+		}
+	}
+	if tickers {
+		evs = append(evs, VerifEvent{VPoolTicker, 0})
+	}
+	cp := e.cp
+	if len(cp.ready) > 0 {
+		evs = append(evs, VerifEvent{VClosePoolReady, 0})
+	}
+	for i, w := range cp.workers {
+		if len(w.completedC) > 0 {
+			evs = append(evs, VerifEvent{VClosePoolCompleted, uint64(i)})
+		}
+		if len(w.requestC) > 0 {
+			evs = append(evs, VerifEvent{VCloseJob, uint64(i)})
+		}
+	}
+	if d.monitorHasWork() {
+		evs = append(evs, VerifEvent{VMonitor, 0})
+	}
+	return evs
+}
+
+func (d *VerifDriver) monitorHasWork() bool {
+	// called by the simulator's scheduler: must not take nh.mu, which a parked
+	// task may hold
+	found := false
+	d.nh.mu.shards.Range(func(k, v interface{}) bool {
+		if v.(*node).stopped() {
+			found = true
+			return false
+		}
+		return true
+	})
+	return found
+}
+
+func verifTake(ch chan struct{}) {
+	select {
+	case <-ch:
+	default:
+	}
+}
+
+// Run executes one branch exactly as the corresponding select case does.
+func (d *VerifDriver) Run(ev VerifEvent) {
+	e := d.e
+	switch ev.Kind {
+	case VStepTicker, VStepCCI, VStepWork:
+		l := d.step[ev.Worker-1]
+		l.wg.Add(1)
+		defer l.wg.Done()
+		if d.isStopped() {
+			return
+		}
+		d.runStep(ev, l)
+	case VCommitTicker, VCommitCCI, VCommitWork:
+		l := d.commit[ev.Worker-1]
+		l.wg.Add(1)
+		defer l.wg.Done()
+		if d.isStopped() {
+			return
+		}
+		d.runCommit(ev, l)
+	case VApplyTicker, VApplyCCI, VApplyWork:
+		l := d.apply[ev.Worker-1]
+		l.wg.Add(1)
+		defer l.wg.Done()
+		if d.isStopped() {
+			return
+		}
+		d.runApply(ev, l)
+	case VPoolSave, VPoolRecover, VPoolStream, VPoolCCI, VPoolCompleted, VPoolTicker:
+		d.poolWG.Add(1)
+		defer d.poolWG.Done()
+		if d.isStopped() {
+			return
+		}
+		d.runPool(ev)
+	case VSSJob:
+		d.ssWG.Add(1)
+		defer d.ssWG.Done()
+		w := e.wp.workers[ev.Worker]
+		select {
+		case j := <-w.requestC:
+			if j.node == nil {
+				panic("req.node == nil")
+			}
+			if err := w.handle(j); err != nil {
+				panicNow(err)
+			}
+			w.completed()
+		default:
+		}
+	case VClosePoolReady:
+		p := e.cp
+		select {
+		case v := <-p.ready:
+			p.pending = append(p.pending, v.node)
+		default:
+		}
+		p.schedule()
+	case VClosePoolCompleted:
+		p := e.cp
+		w := p.workers[ev.Worker]
+		select {
+		case <-w.completedC:
+			p.completed(ev.Worker)
+		default:
+		}
+		p.schedule()
+	case VCloseJob:
+		d.ssWG.Add(1)
+		defer d.ssWG.Done()
+		w := e.cp.workers[ev.Worker]
+		select {
+		case req := <-w.requestC:
+			if err := w.handle(req); err != nil {
+				panicNow(err)
+			}
+			w.completed()
+		default:
+		}
+	case VMonitor:
+		var stopped []*node
+		d.nh.forEachShard(func(cid uint64, n *node) bool {
+			if n.stopped() {
+				stopped = append(stopped, n)
+			}
+			return true
+		})
+		for _, n := range stopped {
+			if err := d.nh.stopNode(n.shardID, n.replicaID, true); err != nil {
+				plog.Debugf("stopNode failed %v", err)
+			}
+		}
+	}
+}
+
+func (d *VerifDriver) runStep(ev VerifEvent, l *verifLoop) {
+	e := d.e
+	w := ev.Worker
+	stopC := e.nodeStopper.ShouldStop()
+	switch ev.Kind {
+	case VStepTicker:
+		l.nodes, l.cci = e.loadStepNodes(w, l.cci, l.nodes)
+		a := make(map[uint64]struct{})
+		if err := e.processSteps(w, a, l.nodes, l.updates, stopC); err != nil {
+			panicNow(err)
+		}
+	case VStepCCI:
+		verifTake(e.stepCCIReady.waitCh(w))
+		l.nodes, l.cci = e.loadStepNodes(w, l.cci, l.nodes)
+	case VStepWork:
+		verifTake(e.stepWorkReady.waitCh(w))
+		if l.cci == 0 || len(l.nodes) == 0 {
+			l.nodes, l.cci = e.loadStepNodes(w, l.cci, l.nodes)
+		}
+		a := e.stepWorkReady.getReadyMap(w)
+		if err := e.processSteps(w, a, l.nodes, l.updates, stopC); err != nil {
+			panicNow(err)
+		}
+	}
+}
+
+func (d *VerifDriver) runCommit(ev VerifEvent, l *verifLoop) {
+	e := d.e
+	w := ev.Worker
+	switch ev.Kind {
+	case VCommitTicker:
+		l.nodes, l.cci = e.loadCommitNodes(w, l.cci, l.nodes)
+		e.processCommits(make(map[uint64]struct{}), l.nodes)
+	case VCommitCCI:
+		verifTake(e.commitCCIReady.waitCh(w))
+		l.nodes, l.cci = e.loadCommitNodes(w, l.cci, l.nodes)
+	case VCommitWork:
+		verifTake(e.commitWorkReady.waitCh(w))
+		if l.cci == 0 || len(l.nodes) == 0 {
+			l.nodes, l.cci = e.loadCommitNodes(w, l.cci, l.nodes)
+		}
+		active := e.commitWorkReady.getReadyMap(w)
+		e.processCommits(active, l.nodes)
+	}
+}
+
+func (d *VerifDriver) runApply(ev VerifEvent, l *verifLoop) {
+	e := d.e
+	w := ev.Worker
+	switch ev.Kind {
+	case VApplyTicker:
+		l.nodes, l.cci = e.loadApplyNodes(w, l.cci, l.nodes)
+		a := make(map[uint64]struct{})
+		if err := e.processApplies(a, l.nodes, l.batch, l.entries); err != nil {
+			panicNow(err)
+		}
+	case VApplyCCI:
+		verifTake(e.applyCCIReady.waitCh(w))
+		l.nodes, l.cci = e.loadApplyNodes(w, l.cci, l.nodes)
+	case VApplyWork:
+		verifTake(e.applyWorkReady.waitCh(w))
+		if l.cci == 0 || len(l.nodes) == 0 {
+			l.nodes, l.cci = e.loadApplyNodes(w, l.cci, l.nodes)
+		}
+		a := e.applyWorkReady.getReadyMap(w)
+		if err := e.processApplies(a, l.nodes, l.batch, l.entries); err != nil {
+			panicNow(err)
+		}
+	}
+}
+
+func (d *VerifDriver) runPool(ev VerifEvent) {
+	p := d.e.wp
+	toSchedule := false
+	switch ev.Kind {
+	case VPoolSave:
+		verifTake(p.saveReady.waitCh(1))
+		shards := p.saveReady.getReadyMap(1)
+		p.loadNodes()
+		for cid := range shards {
+			if j, ok := p.getSaveJob(cid); ok {
+				p.pending = append(p.pending, j)
+				toSchedule = true
+			}
+		}
+	case VPoolRecover:
+		verifTake(p.recoverReady.waitCh(1))
+		shards := p.recoverReady.getReadyMap(1)
+		p.loadNodes()
+		for cid := range shards {
+			if j, ok := p.getRecoverJob(cid); ok {
+				p.pending = append(p.pending, j)
+				toSchedule = true
+			}
+		}
+	case VPoolStream:
+		verifTake(p.streamReady.waitCh(1))
+		shards := p.streamReady.getReadyMap(1)
+		p.loadNodes()
+		for cid := range shards {
+			if j, ok := p.getStreamJob(cid); ok {
+				p.pending = append(p.pending, j)
+				toSchedule = true
+			}
+		}
+	case VPoolCCI:
+		verifTake(p.cciReady.waitCh(1))
+		p.loadNodes()
+	case VPoolCompleted:
+		w := p.workers[ev.Worker]
+		select {
+		case <-w.completedC:
+			p.completed(ev.Worker)
+			toSchedule = true
+		default:
+		}
+	case VPoolTicker:
+		p.loadNodes()
+	}
+	if toSchedule {
+		p.loadNodes()
+		p.schedule()
+	}
+}
+
+// Tick is the body of the tick worker's ticker branch.
+func (d *VerifDriver) Tick() {
+	if d.isStopped() {
+		return
+	}
+	nh := d.nh
+	d.tick++
+	if d.tickIdx != nh.getShardSetIndex() {
+		d.tickNodes = d.tickNodes[:0]
+		d.tickIdx = nh.forEachShard(func(cid uint64, n *node) bool {
+			d.tickNodes = append(d.tickNodes, n)
+			return true
+		})
+	}
+	nh.sendTickMessage(d.tickNodes, d.tick)
+	d.e.setAllStepReady(d.tickNodes)
+}
+
+// verifClose is what engine.close() does in a verif build: the same stop
+// sequence the worker goroutines perform when their stoppers fire, executed
+// by the caller once the branches still in flight have returned.
+func (e *engine) verifClose() error {
+	v, ok := verifDrivers.Load(e)
+	if !ok {
+		return nil
+	}
+	verifDrivers.Delete(e)
+	d := v.(*VerifDriver)
+	d.mu.Lock()
+	d.stopped = true
+	d.mu.Unlock()
+	for _, l := range d.step {
+		l.wg.Wait()
+		e.offloadNodeMap(l.nodes)
+	}
+	for _, l := range d.commit {
+		l.wg.Wait()
+		e.offloadNodeMap(l.nodes)
+	}
+	for _, l := range d.apply {
+		l.wg.Wait()
+		e.offloadNodeMap(l.nodes)
+	}
+	d.poolWG.Wait()
+	d.ssWG.Wait()
+	// snapshot jobs handed to a worker but not started yet are dropped when
+	// the worker stopper fires
+	e.wp.unloadNodes()
+	// closeWorkerPool.timedWait
+	p := e.cp
+	select {
+	case v := <-p.ready:
+		p.pending = append(p.pending, v.node)
+	default:
+	}
+	p.schedule()
+	for !p.isIdle() {
+		progress := false
+		for _, w := range p.workers {
+			select {
+			case req := <-w.requestC:
+				if err := w.handle(req); err != nil {
+					panicNow(err)
+				}
+				p.completed(w.workerID)
+				progress = true
+			default:
+			}
+			select {
+			case <-w.completedC:
+				p.completed(w.workerID)
+				progress = true
+			default:
+			}
+		}
+		p.schedule()
+		if !progress {
+			break
+		}
+	}
+	return nil
+}
+
+//
+// accessors used by the simulation harness
+//
+
+// VerifReplica is a white box view of one replica.
+type VerifReplica struct {
+	n *node
+}
+
+// VerifGetReplica returns the view of a shard's local replica.
+func (nh *NodeHost) VerifGetReplica(shardID uint64) (VerifReplica, bool) {
+	n, ok := nh.getShard(shardID)
+	if !ok {
+		return VerifReplica{}, false
+	}
+	return VerifReplica{n: n}, true
+}
+
+// Initialized tells whether the replica finished its initial recovery.
+func (r VerifReplica) Initialized() bool { return r.n.initialized() }
+
+// Stopped tells whether the replica was asked to stop.
+func (r VerifReplica) Stopped() bool { return r.n.stopped() }
+
+// Applied returns the index of the last applied entry.
+func (r VerifReplica) Applied() uint64 { return r.n.sm.GetLastApplied() }
+
+// Membership returns the applied membership.
+func (r VerifReplica) Membership() pb.Membership { return r.n.sm.GetMembership() }
+
+// Hashes returns the user state, session and membership hashes.
+func (r VerifReplica) Hashes() (uint64, uint64, uint64, error) {
+	s, err := r.n.sm.GetHash()
+	if err != nil {
+		return 0, 0, 0, err
+	}
+	return s, r.n.sm.GetSessionHash(), r.n.sm.GetMembershipHash(), nil
+}
+
+// Peer gives access to the raft peer (for raft.VerifPeek).
+func (r VerifReplica) Peer() interface{} { return &r.n.p }
+
+// RaftLocked runs f with the replica's raft mutex held.
+func (r VerifReplica) RaftLocked(f func()) {
+	r.n.raftMu.Lock()
+	defer r.n.raftMu.Unlock()
+	f()
+}
+
+// LogReader returns the replica's log reader.
+func (r VerifReplica) LogReader() *logdb.LogReader { return r.n.logReader }
+
+// Quiesced reports whether the replica is in quiesce mode.
+func (r VerifReplica) Quiesced() bool { return r.n.qs.quiesced() }
+
+// SnapshotIndex returns the index of the most recent snapshot known to the
+// node's snapshot state.
+func (r VerifReplica) SnapshotIndex() uint64 { return r.n.ss.getIndex() }
+
+// VerifLogDB returns the log store of the NodeHost.
+func (nh *NodeHost) VerifLogDB() raftio.ILogDB { return nh.mu.logdb }
+
+// VerifTransport returns the transport module of the NodeHost.
+func (nh *NodeHost) VerifTransport() *transport.Transport {
+	t, _ := nh.transport.(*transport.Transport)
+	return t
+}
+
+// VerifSnapshotDir returns the snapshot directory of a replica.
+func (nh *NodeHost) VerifSnapshotDir(shardID uint64, replicaID uint64) string {
+	return nh.env.GetSnapshotDir(nh.nhConfig.GetDeploymentID(), shardID, replicaID)
+}
